@@ -4,6 +4,7 @@ CONSTANTS
   Templates <- TplC18p
   Bundles <- Ca1Only
   Ctxs <- Wide
+  Reqs <- FullReq
   Tries <- One
   Hists <- NoHist
   BackoffCfgs <- NoBoCfgs
